@@ -63,6 +63,21 @@ def evaluate(prop, run_, results, stats):
                 run_.inconc("program %d crashed (%s); memory errors along the << chain are C05's verdict" % (seed, key))
             continue
         prog = loggen.gen_program(seed)
+        # per-instance delivery counters of the sinks: strictly 1, 2, 3, ... over the whole run
+        if prop == "C05":
+            last = {}
+            for line in out.split("\n"):
+                if line.startswith("SINK ") and " #" in line:
+                    f = line.split(" ")
+                    n = int(f[-1][1:])
+                    if n != last.get(f[1], 0) + 1:
+                        run_.violation("sequence-member-is-not-the-same-object-across-records",
+                                       "sink %s reports delivery #%d after #%d: records are delivered to copies of the "
+                                       "sequence's members" % (f[1], n, last.get(f[1], 0)), case)
+                        break
+                    last[f[1]] = n
+            stats["sink-instance-counter-checks"] += sum(last.values())
+        out = "\n".join(l.rsplit(" #", 1)[0] if l.startswith("SINK ") else l for l in out.split("\n"))
         types, cfgs, done = loggen.parse_log(out, loggen.item_owner(prog))
         if not done:
             run_.inconc("program %d did not finish" % seed)
